@@ -2,7 +2,7 @@
 
 exit 0  all obligations discharged, all bounded stand-ins passed (listed known findings are printed, not failed)
 exit 1  VIOLATION property=<id> replay=<path> [no-failing-input-found]
-exit 2  undecided (solver unknown / timeout / code left the supported subset / a loop invariant of the proof refuted without a reproducing input) and no violation found
+exit 2  undecided (solver unknown / timeout / code left the supported subset) and no violation found
 exit 3  checker error (vacuity guard tripped, internal exception)
 """
 from __future__ import annotations
